@@ -27,7 +27,19 @@ def main():
         if args.replay:
             sys.exit(mod.replay(args.replay))
         ck = core.Check(prop, args.tier, seed)
-        mod.run(ck)
+        try:
+            mod.run(ck)
+        except (core.Infra, Exception) as e:  # noqa: BLE001
+            # the harness could not finish.  If an obligation is already known to be broken (the Lean step does
+            # not check, the correspondence disagrees) or a failing input is in hand, that is the verdict to
+            # report (DESIGN §2.6) — the harness reads its tables off the same source, so it may well stop for
+            # the same reason; otherwise it is an infrastructure failure (exit 2).
+            lean = getattr(ck, "lean", None)
+            if ck.violations or ck.tie_breaks or (lean is not None and not lean.ok):
+                ck.harness_error = f"{type(e).__name__}: {e}"
+                traceback.print_exc()
+                sys.exit(ck.finish())
+            raise
         sys.exit(ck.finish())
     except core.Infra as e:
         print(f"INFRA: {e}", file=sys.stderr)
